@@ -192,6 +192,10 @@ impl<'tcx> Cx<'tcx> {
                 esc(&format!("{}", ty))
             ),
             Rvalue::Discriminant(p) => format!("{{\"k\":\"discr\",\"place\":{}}}", self.place(body, p)),
+            Rvalue::Repeat(o, ct) => match ct.try_to_target_usize(self.tcx) {
+                Some(n) => format!("{{\"k\":\"repeat\",\"op\":{},\"n\":{}}}", self.operand(body, o), n),
+                None => format!("{{\"k\":\"other\",\"dbg\":{}}}", esc(&format!("{:?}", rv))),
+            },
             Rvalue::Aggregate(kind, ops) => {
                 let k = match &**kind {
                     mir::AggregateKind::Tuple => "{\"k\":\"tuple\"}".to_string(),
